@@ -116,6 +116,17 @@ def known_matcher(pid):
                 toks = cmd.split(" ")[2:]
                 if any(t[0] in "bc" and not wellformed_utf8_tok(t) for t in toks):
                     return e["line"]
+            if e["id"] == "F4-unc-localhost" and cmd.startswith("filert windows") and ("toerr" in x or "again-err" in x or "host=-" in x):
+                try:
+                    t = cmd.split(" ")[2]; en = t[0]; h = t.split(":", 1)[1]
+                    w = {"b": 2, "c": 2, "h": 4}.get(en, 8)
+                    txt = "".join(chr(int(h[i:i + w], 16)) for i in range(0, len(h), w))
+                    import unicodedata
+                    server = re.split(r"[\\/]", re.sub(r"^[\\/]{2}([?.][\\/][uU][nN][cC][\\/])?", "", txt))[0]
+                    if unicodedata.normalize("NFKC", server).lower() == "localhost" or "%" in server and __import__("urllib.parse").parse.unquote(server).lower() == "localhost":
+                        return e["line"]
+                except Exception:
+                    pass
             if e["id"] == "F4-unc-localhost" and cmd.startswith("fromfile ") and " windows " in cmd and "hostname=-" in x and "valid=1" in x:
                 if re.search(r"hostname=[0-9A-F]+", y):
                     return e["line"]
@@ -133,9 +144,9 @@ def wellformed_utf8_tok(t):
 # ---------------------------------------------------------------- stream builders
 def stream_parse(ctx, r):
     cases = []
-    n_inputs = scale(ctx, 40, 400)
+    n_inputs = scale(ctx, 200, 1000)
     for bi, base in enumerate(gens.BASES):
-        for rep in range(scale(ctx, 2, 12)):
+        for rep in range(scale(ctx, 5, 40)):
             lines = []
             if base is not None:
                 lines.append("parse 0 %s -" % tok(base))
@@ -162,7 +173,7 @@ def stream_parse_exhaustive(ctx, r):
 def stream_reparse(ctx, r):
     cases = []
     valid_bases = [b for b in gens.BASES if b and not b.startswith("INVALID")]
-    for rep in range(scale(ctx, 60, 600)):
+    for rep in range(scale(ctx, 1500, 20000)):
         lines = []
         base = r.choice(gens.BASES[:-1])
         if base:
@@ -208,7 +219,7 @@ START_URLS = ["http://example.com/", "https://u:p@h:8443/a/b?q#f", "http://h", "
 
 def stream_setters(ctx, r):
     cases = []
-    for rep in range(scale(ctx, 400, 4000)):
+    for rep in range(scale(ctx, 3000, 40000)):
         lines = ["parse 0 %s -" % tok(r.choice(START_URLS) if r.random() < 0.7 else gens.gen_url(r))]
         for _ in range(r.randint(1, scale(ctx, 12, 40))):
             w, v = gen_setter_call(r)
@@ -232,7 +243,7 @@ def gen_sp_op(r, prefix, slot):
 def stream_histories(ctx, r):
     """C05/C06: interleavings of URL operations and query-object mutations over two or three objects"""
     cases = []
-    for rep in range(scale(ctx, 300, 3000)):
+    for rep in range(scale(ctx, 2500, 30000)):
         lines = []
         for _ in range(r.randint(2, scale(ctx, 15, 60))):
             x = r.random(); a, b = r.sample([0, 1, 2], 2)
@@ -410,6 +421,12 @@ def stream_usp(ctx, r):
             else: lines.append("usp_safe_assign 0 1")
         lines.append("usp_sort 0")
         cases.append(Case(lines, "usp"))
+    # probes with ill-formed UTF-8 given as char input (known finding F2 when they deviate)
+    for bad in [[0xFF], [0x61, 0xC3], [0xE2, 0x82], [0xED, 0xA0, 0x80], [0xC0, 0xAF], [0x80]]:
+        for op in ["append", "set", "has2", "del2"]:
+            cases.append(Case(["usp_new 0 %s" % tok("a=b"), "usp_%s 0 %s %s" % (op, tok_units("b", bad), tok_units("b", bad))], "F2-probe"))
+        for op in ["get", "has", "del", "getall"]:
+            cases.append(Case(["usp_new 0 %s" % tok("%FF=b&%EF%BF%BD=c"), "usp_%s 0 %s" % (op, tok_units("b", bad))], "F2-probe"))
     # comparator
     names = [S(x) for x in ["", "a", "b", "aa", "a\u00e9", "\u00e9", "\uffff", "\ue000", "\ud7ff", "\U00010000", "\U0010ffff", "\U0001f4a9", "\U0001f4aa", "z\U00010000", "z\uffff"]]
     lines = []
@@ -464,7 +481,24 @@ def stream_filepath(ctx, r):
     for p in POSIX_PATHS:
         for e in ["b", "h", "w"]:
             lines.append("fromfile 0 posix %s" % tok(p, e)); lines.append("tofile 0 posix"); lines.append("tofile 0 windows")
+    for p in WIN_PATHS:
+        lines.append("filert windows %s" % tok(p, r.choice(["b", "h", "w"])))
+    for p in POSIX_PATHS:
+        lines.append("filert posix %s" % tok(p, r.choice(["b", "h", "w"])))
+    for srv in ["localhost", "LOCALHOST", "LocalHost", "\uff4cocalhost", "loc%61lhost"]:
+        lines.append("filert windows %s" % tok("\\\\" + srv + "\\share\\x"))
+        lines.append("filert windows %s" % tok("\\\\" + srv + "\\C:\\x"))
     for rep in range(scale(ctx, 1500, 30000)):
+        k = r.random()
+        if k < 0.25:
+            p = "/" + "/".join("".join(r.choice(["a", "b", ".", "..", "%", "%2e", "%41", "?", "#", ":", "|", "\\", " ", "\u00fc", "C:", "\t", "~", ";", "="]) for _ in range(r.randint(0, 3))) for _ in range(r.randint(0, 4)))
+            lines.append("filert posix %s" % tok(p, r.choice(["b", "h", "w"])))
+            continue
+        if k < 0.5:
+            pre = r.choice(["C:\\", "c:/", "\\\\h\\s\\", "\\\\h\\s", "//h/s/", "\\\\?\\C:\\", "\\\\?\\UNC\\h\\s\\", "\\\\EXAMPLE.com\\Share\\", "\\\\127.1\\s\\", "\\\\b\u00fccher\\s\\", "\\\\[::1]\\s\\", "\\\\a_b\\s\\"])
+            p = pre + r.choice(["\\", "/"]).join("".join(r.choice(["a", ".", "..", "%", "%5C", "%41", "?", "#", ":", "|", " ", "\u00fc", "C:", "~"]) for _ in range(r.randint(0, 3))) for _ in range(r.randint(0, 4)))
+            lines.append("filert windows %s" % tok(p, r.choice(["b", "h", "w"])))
+            continue
         if r.random() < 0.5:
             p = r.choice(["/", "/", "", "a"]) + "/".join("".join(r.choice(["a", ".", "..", "%", "%2e", "?", "#", ":", "|", "\\", " ", "\u00fc", "\x00", "C:", "\t"]) for _ in range(r.randint(0, 3))) for _ in range(r.randint(0, 4)))
             e = r.choice(["b", "h", "w"])
@@ -501,6 +535,35 @@ def oracle_filepath(cmd, line):
             return "fromfile-result-not-a-plain-file-url"
         if " posix " in cmd and field(line, "hostname") != "-":
             return "posix-path-gave-a-host"
+    if cmd.startswith("filert") and line.startswith("filert accepted"):
+        toks = cmd.split(" ")
+        fmt = toks[1]; arg = toks[2]
+        if " toerr" in line or " again-err" in line:
+            return "accepted-path-does-not-round-trip"
+        p1 = field(line, "p1"); p2 = field(line, "p2")
+        if p1 != p2:
+            return "round-trip-not-a-fixed-point"
+        e, h = arg.split(":", 1)[0][0], arg.split(":", 1)[1]
+        if fmt == "posix" and e == "b" and wellformed_utf8_tok(arg):
+            raw = bytes.fromhex(h)
+            segs = raw.split(b"/")
+            if b"." not in segs and (p1 if p1 != "-" else "") .lower() != h.lower():
+                return "posix-round-trip-changed-the-path"
+        if fmt == "windows":
+            # UNC paths keep their server as host; drive paths have an empty host
+            units = h
+            try:
+                w = {"b": 2, "c": 2, "h": 4}.get(e, 8)
+                cps = [int(h[i:i + w], 16) for i in range(0, len(h), w)]
+            except ValueError:
+                cps = []
+            is_unc = len(cps) >= 3 and cps[0] in (47, 92) and cps[1] in (47, 92) and not (cps[2] in (63, 46) and len(cps) > 3 and cps[3] in (47, 92))
+            is_ns_unc = len(cps) >= 8 and cps[0] in (47, 92) and cps[1] in (47, 92) and cps[2] in (63, 46) and cps[3] in (47, 92) and bytes(c & 0x7f for c in cps[4:7]).lower() == b"unc" and cps[7] in (47, 92)
+            host = field(line, "host")
+            if (is_unc or is_ns_unc) and host == "-":
+                return "unc-server-lost"
+            if not (is_unc or is_ns_unc) and host != "-":
+                return "drive-path-gave-a-host"
     if cmd.startswith("tofile") and line.startswith("tofile ok"):
         p = corr.unhex(line.split(" ")[2])
         if "\x00" in p:
